@@ -85,6 +85,7 @@ type Frame struct {
 	curBlock *ssa.BasicBlock
 	oneLen   map[ssa.Value]bool // slices statically known to have length 1
 	nonNil   map[ssa.Value]bool
+	declMods map[string][]Term // declared modifies of the top function: comp -> objects ("at"), empty = whole
 }
 
 func newFrame(c *Ctx, fn *ssa.Function, parent *Frame) *Frame {
@@ -147,26 +148,35 @@ func (fr *Frame) computeLoopOrdinals() {
 			heads = append(heads, b)
 		}
 	}
-	posOf := func(b *ssa.BasicBlock) token.Pos {
-		// smallest valid position among instructions of the loop body blocks
+	// a loop's position is the smallest source position of any instruction in
+	// its body; an outer loop therefore precedes the loops nested in it
+	body := map[*ssa.BasicBlock][]*ssa.BasicBlock{}
+	posOf := map[*ssa.BasicBlock]token.Pos{}
+	for _, h := range heads {
 		best := token.NoPos
 		for _, bb := range fr.fn.Blocks {
-			if !b.Dominates(bb) {
+			if bb == fr.fn.Recover || !h.Dominates(bb) || !(bb == h || reaches(bb, h)) {
 				continue
 			}
+			body[h] = append(body[h], bb)
 			for _, in := range bb.Instrs {
+				if _, isDbg := in.(*ssa.DebugRef); isDbg {
+					continue
+				}
 				if p := in.Pos(); p.IsValid() && (best == token.NoPos || p < best) {
 					best = p
 				}
 			}
-			break
 		}
-		return best
+		posOf[h] = best
 	}
 	sort.SliceStable(heads, func(i, j int) bool {
-		pi, pj := posOf(heads[i]), posOf(heads[j])
-		if pi != pj && pi.IsValid() && pj.IsValid() {
+		pi, pj := posOf[heads[i]], posOf[heads[j]]
+		if pi != pj {
 			return pi < pj
+		}
+		if len(body[heads[i]]) != len(body[heads[j]]) {
+			return len(body[heads[i]]) > len(body[heads[j]])
 		}
 		return heads[i].Index < heads[j].Index
 	})
